@@ -39,6 +39,7 @@ typedef struct {
   int weights[32];
   /* timers profile */
   int conn_sit, srv_sit, offset_us, burst, second_client, idle_after_timeout;
+  int backoff; /* busy connection whose outstanding query is in a backed-off attempt (deadline far away) */
 } et_cfg_t;
 static et_cfg_t et_cfg;
 
@@ -118,6 +119,7 @@ typedef struct {
   int      chain_kind;
   int      cb_sleep_us;
   int      flags;
+  int      bad; /* arguments the library refuses: the error exits of the entry points */
   char     name[80];
 } et_reqspec_t;
 
@@ -249,6 +251,15 @@ static void et_make_spec(vh_rng_t *g, int kind, et_reqspec_t *sp, int allow_chai
     default:
       break;
   }
+  if (et_cfg.profile == ET_P_STRESS && vh_chance(g, 1, 12)) {
+    /* error exits: a name no query can be built from / an address family nobody resolves */
+    sp->bad = 1;
+    if (kind != K_GHBA && kind != K_GNI) {
+      static const char *const badn[] = { "bad..ex.test", "a-label-that-is-far-longer-than-the-sixty-three-octets-a-label-may-have.test",
+                                          ".bad.test", "bad\\1x.test" };
+      snprintf(sp->name, sizeof(sp->name), "%s", badn[vh_below(g, 4)]);
+    }
+  }
 }
 
 static int et_req_nseq(int kind)
@@ -333,7 +344,11 @@ static int et_issue(const et_reqspec_t *sp, int issuer, ares_channel_t *chan, in
       ares_gethostbyname(chan, sp->name, sp->family, et_cb_host, r);
       break;
     case K_GHBA:
-      if (sp->family == AF_INET) {
+      if (sp->bad) {
+        struct in_addr a;
+        memset(&a, 0, sizeof(a));
+        ares_gethostbyaddr(chan, &a, (sp->flags & 1) ? 3 : sizeof(a), (sp->flags & 1) ? AF_INET : AF_UNIX, et_cb_host, r);
+      } else if (sp->family == AF_INET) {
         struct in_addr a;
         inet_pton(AF_INET, (sp->flags & 1) ? "10.1.1.1" : "10.2.3.4", &a);
         ares_gethostbyaddr(chan, &a, sizeof(a), AF_INET, et_cb_host, r);
@@ -344,7 +359,12 @@ static int et_issue(const et_reqspec_t *sp, int issuer, ares_channel_t *chan, in
       }
       break;
     case K_GNI:
-      if (sp->family == AF_INET) {
+      if (sp->bad) {
+        struct sockaddr_in sa;
+        memset(&sa, 0, sizeof(sa));
+        sa.sin_family = (sp->flags & 1) ? AF_INET : AF_UNIX;
+        ares_getnameinfo(chan, (struct sockaddr *)&sa, (sp->flags & 1) ? 5 : sizeof(sa), ARES_NI_LOOKUPHOST, et_cb_nameinfo, r);
+      } else if (sp->family == AF_INET) {
         struct sockaddr_in sa;
         memset(&sa, 0, sizeof(sa));
         sa.sin_family = AF_INET;
@@ -397,6 +417,9 @@ static const char *const et_srv_csv_ports[] = {
 };
 static const char *const et_srv_csv[] = { "10.0.0.2,10.0.0.1", "10.0.0.1", "10.0.0.3,10.0.0.1,10.0.0.2",
                                           "fd00::1,10.0.0.1" };
+static const char *const et_bad_sortlists[] = { "10.0.0.0/8 ; not-an-address", "10.0.0.0/99", "300.1.2.3/8 10.0.0.0/8",
+                                                "fd00::/16 10.0.0.0/" };
+static const char *const et_bad_srv_csv[] = { "10.0.0.1,,bogus", "[fd00::1", "10.0.0.999", "10.0.0.1:notaport" };
 static const char *const et_sortlists[] = { "10.0.0.0/8 192.168.0.0/16", "192.168.0.0/255.255.0.0", "10.1.0.0/16",
                                             "fd00::/16 10.0.0.0/8" };
 
@@ -559,6 +582,25 @@ static int et_pick_kind(et_client_t *c)
   return K_PAUSE;
 }
 
+/* A public call made from an application thread (not from inside a callback) has returned: the thread must hold
+ * none of the library's mutexes any more.  The channel mutex is recursive, so the thread that leaked it notices
+ * nothing; every other thread blocks for ever.  et_depth is this thread's count of wrapped mutexes held. */
+static uint64_t         et_cur_idx;
+static _Atomic uint64_t et_n_lockbal_eval, et_n_refused;
+static _Atomic int      et_dup_live;
+static _Atomic int64_t  et_dup_last_end_ns;
+static void et_check_no_lock_held(int kind)
+{
+  atomic_fetch_add_explicit(&et_n_lockbal_eval, 1, ET_RELAX);
+  if (et_depth != 0) {
+    printf("V %llu lock:et:held-after-return | %s returned to the application thread with %d library mutex(es) still "
+           "locked by that thread (the channel mutex is recursive: this thread goes on, every other thread blocks)\n",
+           (unsigned long long)et_cur_idx, et_kind_name[kind], et_depth);
+    fflush(stdout);
+    et_depth = 0;
+  }
+}
+
 static void et_do_op(et_client_t *c, int kind)
 {
   vh_rng_t *g = &c->rng;
@@ -580,12 +622,30 @@ static void et_do_op(et_client_t *c, int kind)
       et_api_cancel();
       break;
     case K_SETSRV_PORTS:
+      if (vh_chance(g, 1, 5)) {
+        if (et_api_set_servers_ports_csv(et_bad_srv_csv[vh_below(g, 4)]) != ARES_SUCCESS) {
+          atomic_fetch_add_explicit(&et_n_refused, 1, ET_RELAX);
+        }
+        break;
+      }
       et_api_set_servers_ports_csv(et_srv_csv_ports[vh_below(g, 6)]);
       break;
     case K_SETSRV:
+      if (vh_chance(g, 1, 5)) {
+        if (et_api_set_servers_csv(et_bad_srv_csv[vh_below(g, 4)]) != ARES_SUCCESS) {
+          atomic_fetch_add_explicit(&et_n_refused, 1, ET_RELAX);
+        }
+        break;
+      }
       et_api_set_servers_csv(et_srv_csv[vh_below(g, 4)]);
       break;
     case K_SORTLIST:
+      if (vh_chance(g, 1, 4)) {
+        if (et_api_set_sortlist(et_bad_sortlists[vh_below(g, 4)]) != ARES_SUCCESS) {
+          atomic_fetch_add_explicit(&et_n_refused, 1, ET_RELAX);
+        }
+        break;
+      }
       et_api_set_sortlist(et_sortlists[et_cfg.sortlist_one_size ? 3 * vh_below(g, 2) : vh_below(g, 4)]);
       break;
     case K_REINIT:
@@ -628,6 +688,7 @@ static void et_do_op(et_client_t *c, int kind)
     case K_DUP:
       {
         ares_channel_t *d = NULL;
+        atomic_fetch_add(&et_dup_live, 1);
         if (et_api_dup(&d) == ARES_SUCCESS && d != NULL) {
           if (vh_chance(g, 1, 2)) {
             et_reqspec_t sp;
@@ -636,6 +697,8 @@ static void et_do_op(et_client_t *c, int kind)
           }
           ares_destroy(d);
         }
+        atomic_store(&et_dup_last_end_ns, et_now_ns());
+        atomic_fetch_sub(&et_dup_live, 1);
       }
       break;
     case K_CONFCHG:
@@ -718,6 +781,7 @@ static void *et_client_stress(void *arg)
     t0 = et_now_ns();
     et_do_op(c, kind);
     et_client_log(c, kind, t0);
+    et_check_no_lock_held(kind);
   }
   atomic_fetch_add(&et_clients_done, 1);
   return NULL;
@@ -725,7 +789,6 @@ static void *et_client_stress(void *arg)
 
 /* ---------- watchdog / monitor thread ---------- */
 static _Atomic int et_mon_stop;
-static uint64_t    et_cur_idx;
 
 static void et_cleanup_scratch(void)
 {
@@ -980,6 +1043,84 @@ static void et_report_hang(int64_t now, const char *why)
   et_die(line);
 }
 
+/* Lost wake-up, observed directly.  The library's end of a connection has unread data since time t0 (seen by
+ * polling it under the table lock, so it cannot be closed meanwhile), and the event thread of the channel ENTERED
+ * a wait later than t0 that went on for more than 150 ms: all three back ends are level-triggered, the
+ * registration was queued (and the thread woken) before the first datagram could be sent on the socket, so a wait
+ * entered with the data already there has to return at once.  Only judged while no duplicate channel (own event
+ * thread, same socket table) exists. */
+static _Atomic uint64_t et_n_readable_seen, et_n_readable_judged, et_n_readable_overload;
+static void et_check_slept_through(int64_t now)
+{
+  static int64_t last_tick;
+  int            i, overloaded;
+  /* the monitor ticks every 20 ms; a tick that comes 80 ms late says the machine is not scheduling us: no
+   * judgement on durations then, and the observation starts over */
+  overloaded = last_tick != 0 && now - last_tick > 80 * 1000000LL;
+  last_tick  = now;
+  if (overloaded) {
+    atomic_fetch_add_explicit(&et_n_readable_overload, 1, ET_RELAX);
+  }
+  if (overloaded || atomic_load(&et_dup_live) != 0 || atomic_load(&et_closing)) {
+    ET_LOCK(&et_net_mu);
+    for (i = 0; i < ET_MAX_PEERS; i++) {
+      et_peers[i].readable_since = 0;
+    }
+    ET_UNLOCK(&et_net_mu);
+    return;
+  }
+  ET_LOCK(&et_net_mu);
+  for (i = 0; i < ET_MAX_PEERS; i++) {
+    et_peer_t    *p = &et_peers[i];
+    struct pollfd pf;
+    unsigned      head, k;
+    int           tid;
+    if (!p->used || p->lib_closed || p->srv < 0) {
+      continue;
+    }
+    pf.fd      = p->lib_fd;
+    pf.events  = POLLIN;
+    pf.revents = 0;
+    if (__real_poll(&pf, 1, 0) != 1 || !(pf.revents & POLLIN)) {
+      p->readable_since = 0;
+      continue;
+    }
+    if (p->readable_since == 0) {
+      p->readable_since = now;
+      atomic_fetch_add_explicit(&et_n_readable_seen, 1, ET_RELAX);
+      continue;
+    }
+    if (now - p->readable_since < 200 * 1000000LL || p->readable_since <= atomic_load(&et_dup_last_end_ns)) {
+      continue;
+    }
+    atomic_fetch_add_explicit(&et_n_readable_judged, 1, ET_RELAX);
+    tid  = atomic_load(&et_main_et_tid);
+    head = atomic_load(&et_ring_head);
+    for (k = 0; k < 64 && k < head; k++) {
+      et_wait_t *w  = &et_ring[(head - 1 - k) % ET_RING];
+      int64_t    te = atomic_load_explicit(&w->t_enter, memory_order_acquire);
+      int64_t    tx = atomic_load_explicit(&w->t_exit, memory_order_acquire);
+      if (atomic_load(&w->tid) != tid || te <= p->readable_since + 5 * 1000000LL) {
+        continue;
+      }
+      if ((tx == 0 ? now : tx) - te > 150 * 1000000LL && atomic_load_explicit(&w->t_enter, memory_order_acquire) == te) {
+        char line[700];
+        snprintf(line, sizeof(line),
+                 "V %llu wake:et:slept-through-readable-socket:%s | the library's %s socket to server %d (descriptor %d) "
+                 "has had unread data for %.0f ms; the event thread entered a %s wait (timeout %d ms) %.0f ms after the "
+                 "data was first seen and stayed in it for %.0f ms%s\n",
+                 (unsigned long long)et_cur_idx, et_backend_name[atomic_load(&w->backend)], p->is_tcp ? "TCP" : "UDP",
+                 p->srv, p->lib_fd, (double)(now - p->readable_since) / 1e6, et_backend_name[atomic_load(&w->backend)],
+                 atomic_load(&w->timeout_ms), (double)(te - p->readable_since) / 1e6,
+                 (double)((tx == 0 ? now : tx) - te) / 1e6, tx == 0 ? " (still inside)" : "");
+        ET_UNLOCK(&et_net_mu);
+        et_die(line);
+      }
+    }
+  }
+  ET_UNLOCK(&et_net_mu);
+}
+
 static void *et_monitor(void *arg)
 {
   uint64_t last_prog = atomic_load(&et_progress);
@@ -1002,6 +1143,7 @@ static void *et_monitor(void *arg)
     if (atomic_load(&et_destroyed)) {
       continue; /* the channel is gone; main is wrapping up */
     }
+    et_check_slept_through(now);
     n = atomic_load(&et_nreq);
     if (n > ET_MAX_REQ) {
       n = ET_MAX_REQ;
